@@ -48,6 +48,20 @@ CHECKS = {
         "covers": ["C16/register-succeeds", "C16/register-fails", "C16/renewal-of-live-name"],
         "assumptions": A_COMMON + A_STORE + A_BANK,
     },
+    "C11": {
+        "pregen": ["python3", "/verif/tools/gen_c11.py"],
+        "covers_file": "/verif/.cache/c11_covers.json",
+        "groups": [{"pkgs": "./x/storage/types,./x/rns/types,./x/filetree/types,./x/oracle/types,./x/notifications/types", "fns": ["VH_C11_*"], "opts": {"j": 8, "w": 2}}],
+        "covers": [],
+        "assumptions": A_COMMON + ["A-B32", "the message types are the request types of each custom module's MsgServer interface (enumerated from x/*/types/tx.pb.go at run time)"],
+        "outside": ["that baseapp's MsgServiceRouter finds a handler for each type (runtime protobuf registration)", "signature verification itself (SDK ante handler)"],
+    },
+    "C20": {
+        "groups": [{"pkgs": "./x/filetree/types", "fns": ["VH_C20_*"]}],
+        "covers": ["C20/child-reached", "C20/trailing-reached", "C20/injective-reached"],
+        "bounds": {"segments": 3},
+        "assumptions": A_COMMON + ["A-HASH: sha256 is modelled as an injective function with 32-byte results (collision freedom)"],
+    },
     "C13": {
         "groups": [{"pkgs": "./x/jklmint/utils", "fns": ["VH_C13_*"]}, {"pkgs": "./x/jklmint/keeper", "fns": ["VH_C13_*"]}],
         "covers": ["C13/kernel-reached", "C13/owed-reached", "C13/blockmint-done"],
